@@ -753,6 +753,11 @@ def check_c06(world):
     period = max([s.get('period_ns', 0) for s in nodes.values() if s.get('src')] or [0])
     allow = {}
     for n in sync_nodes:
+        if n not in exp_inputs:
+            # fed (directly or not) by a filter whose own sources are all ephemeral: outside the synchronized model, but a
+            # synchronized consumer all the same - frames must keep coming (generously thinned: skip rules, side pace)
+            allow[n] = H + 8 * period
+            continue
         cnt = len(exp_inputs.get(n, ()))
         allow[n] = None if cnt == 0 else H + (NF // cnt) * period
     sync_nodes = [n for n in sync_nodes if allow[n] is not None]
